@@ -25,14 +25,14 @@ DATA = {
     "lateDamage": [["1", "a"], ["2", "b"], ["3", "c"], ["y", "d"]],
 }
 RAW = {"lateDamage": '1,a\r\n2,b\r\n3,c\r\n4,"d"x\r\n5,e\r\n'}
-UNTIL = {"absent": [], "all": ["--until", "-1"], "0": ["--until", "0"], "k2": ["--until", "2"], "k9": ["--until", "9"],
+UNTIL = {"absent": [], "all": ["--until", "-1"], "0": ["--until", "0"], "k1": ["--until", "1"], "k2": ["--until", "2"], "k9": ["--until", "9"],
          "huge": ["--until", str(2 ** 63)]}
-LIMIT = {"absent": None, "all": None, "0": 0, "k2": 2, "k9": 9, "huge": 2 ** 63}
+LIMIT = {"absent": None, "all": None, "0": 0, "k1": 1, "k2": 2, "k9": 9, "huge": 2 ** 63}
 
 
-def cid_rows(storage, broken=False):
+def cid_rows(storage, broken=False, header=0):
     fmt = {"csv": "delimited", "ods": "ods", "xlsx": "excel"}[storage]
-    rows = [["D", "Format", fmt], ["F", "id", "", "", "", "Integer" if not broken else "NoSuchType", "0...99"],
+    rows = [["D", "Format", fmt]] + ([["D", "Header", str(header)]] if header else []) + [["F", "id", "", "", "", "Integer" if not broken else "NoSuchType", "0...99"],
             ["F", "name", "", "X"], ["C", "id must be unique", "IsUnique", "id"]]
     return rows
 
@@ -62,6 +62,9 @@ def materialise(folder, storage):
     paths["cid:rejected"] = os.path.join(folder, "cid_rejected" + suffix)
     write_table(paths["cid:rejected"], storage, cid_rows(storage, broken=True))
     paths["cid:missing"] = os.path.join(folder, "no_such_cid" + suffix)
+    for header in (1, 2):
+        paths["cid:valid:h%d" % header] = os.path.join(folder, "cid_valid_h%d%s" % (header, suffix))
+        write_table(paths["cid:valid:h%d" % header], storage, cid_rows(storage, header=header))
     # a named file is that file: names may hold characters that shells and glob patterns treat specially
     spelled = {"fieldRejected": "field[1]Rejected", "dupRejected": "dup?Rejected (copy)", "shares": "shares*"}
     for kind, table in DATA.items():
@@ -100,7 +103,8 @@ def argv_of(vec, paths):
     if vec["args"] == "pluginsWithoutValue":
         return ["cutplace", paths["cid:valid"], paths["accepted"], "--plugins"]
     until = UNTIL[vec["until"]]
-    positional = [paths["cid:" + vec["cid"]]] + [paths[kind] for kind in vec["files"]]
+    cid_key = "cid:" + vec["cid"] + (":h%d" % vec["header"] if vec.get("header") else "")
+    positional = [paths[cid_key]] + [paths[kind] for kind in vec["files"]]
     deco = vec.get("deco", "plain")
     if deco == "logDebug":
         return ["cutplace", "--log", "debug"] + until + positional
@@ -137,12 +141,18 @@ def api_verdicts(report, paths, storage):
     """'accepted by the programmatic API': cutplace.validate on every file kind x limit agrees with the model's rule."""
     import cutplace
     from cutplace import errors
-    for kind in DATA:
+    cases = [(kind, 0) for kind in DATA] + ([(kind, header) for kind in ("accepted", "fieldRejected", "lateDamage") for header in (1, 2)]
+                                            if storage == "csv" else [])
+    for kind, header in cases:
         for until, limit in LIMIT.items():
             bad_at = {"accepted": 0, "shares": 0, "fieldRejected": 2, "dupRejected": 3, "lateDamage": 4}[kind]
-            expected = bad_at > 0 and (limit is None or bad_at <= limit)
+            if kind == "lateDamage" and storage == "csv":
+                # (the container is malformed: met iff it lies within the header rows plus the rows the limit lets through)
+                expected = limit is None or (limit > 0 and bad_at <= header + limit)
+            else:
+                expected = bad_at > header and (limit is None or bad_at <= limit)
             try:
-                cutplace.validate(paths["cid:valid"], paths[kind], validate_until=limit)
+                cutplace.validate(paths["cid:valid" + (":h%d" % header if header else "")], paths[kind], validate_until=limit)
                 rejected = False
             except errors.DataError:
                 rejected = True
@@ -150,9 +160,9 @@ def api_verdicts(report, paths, storage):
                 rejected = "%s: %s" % (type(error).__name__, error)
             report.replayed += 1
             if rejected != expected:
-                report.violation("c18", {"api": [kind, until, storage]}, expected, rejected,
-                                 "%s: cutplace.validate(%s file, validate_until=%r) %s but the limit rule says it is %s" % (
-                                     storage, kind, limit, {True: "rejects it", False: "accepts it"}.get(rejected, "fails with %s" % rejected),
+                report.violation("c18", {"api": [kind, until, storage, header]}, expected, rejected,
+                                 "%s: header %d, cutplace.validate(%s file, validate_until=%r) %s but the limit rule says it is %s" % (
+                                     storage, header, kind, limit, {True: "rejects it", False: "accepts it"}.get(rejected, "fails with %s" % rejected),
                                      "rejected" if expected else "accepted"))
 
 
@@ -217,7 +227,7 @@ def replay(behaviour, report=None):
 def run(tier, report):
     core.import_repo()
     vectors = []
-    for cfg in ("Cli_files.cfg", "Cli_args.cfg", "Cli_options.cfg"):
+    for cfg in ("Cli_files.cfg", "Cli_args.cfg", "Cli_options.cfg", "Cli_header.cfg"):
         result = core.tlc("MCCli", cfg)
         core.require_coverage(result, ["ParseArgs"] + (["LoadCid", "ValidateFile", "Finish"] if cfg != "Cli_args.cfg" else []), cfg)
         report.add_tlc("Cli %s" % cfg, result)
@@ -238,7 +248,8 @@ def run(tier, report):
             api_verdicts(report, paths, storage)
             if storage == "csv":
                 named_pipes(report, paths, os.path.join(folder, storage))
-            chosen = vectors if (storage == "csv" or tier == "thorough") else rng.sample(vectors, 700)
+            plain = [vec for vec in vectors if not vec.get("header")]   # (header rows: csv storage only, see Cli_header.cfg)
+            chosen = vectors if storage == "csv" else (plain if tier == "thorough" else rng.sample(plain, 700))
             shapes = {}
             for vec in chosen:
                 argv = argv_of(vec, paths)
